@@ -151,6 +151,11 @@ def interest_table(ctx, fe):
 
 
 def run(ctx):
+    from ndn.types import ValidResult as VR
+    names = [m.name for m in sorted(VR, key=lambda m: m.value)]
+    if names != ['FAIL', 'TIMEOUT', 'SILENCE', 'PASS', 'ALLOW_BYPASS']:
+        ctx.disagree('types.ValidResult', 'the enum no longer has the five members the verdict table quantifies over',
+                     names, ['FAIL', 'TIMEOUT', 'SILENCE', 'PASS', 'ALLOW_BYPASS'], names)
     for fe in ('v2', 'v1'):
         interest_table(ctx, fe)
         reps = ctx.n(3, 60)
